@@ -289,14 +289,14 @@ def rule_R5(text, counts):
         counts["R5"] = counts.get("R5", 0) + 1
 
 
-def rule_R6(text, counts):
+def rule_R6(text, counts, target="vp_refuse()", names=("panic",)):
     while True:
         m_ = mask(text)
-        m = re.search(r"\bpanic!\s*\(", m_)
+        m = re.search(r"\b(%s)!\s*\(" % "|".join(names), m_)
         if not m:
             return text
         c = match_close(m_, m.end() - 1)
-        text = text[:m.start()] + "vp_refuse()" + text[c + 1:]
+        text = text[:m.start()] + target + text[c + 1:]
         counts["R6"] = counts.get("R6", 0) + 1
 
 
@@ -406,6 +406,11 @@ def auto_rules(text, mode, counts):
     text = rule_R5(text, counts)
     if mode == "refuse":
         text = rule_R6(text, counts)
+        text = rule_R6(text, counts, target="vp_trap()", names=("unreachable",))
+    else:
+        # no-trap mode (default): panic!/unreachable! with a formatted message => vp_trap() (`requires false`),
+        # i.e. exactly Verus' native reading of panic!, minus the message formatting
+        text = rule_R6(text, counts, target="vp_trap()", names=("panic", "unreachable"))
     return text
 
 
